@@ -1,5 +1,5 @@
 (* C08 — Ill-formed models are rejected, never silently repaired. *)
-From GX Require Import Base Expr Topo KahnSound Ode OrderSound Target Sem Codegen Load LoadSound Valid Examples.
+From GX Require Import Base Expr Topo KahnSound Ode OrderSound Target Sem Codegen Load LoadSound Valid MirrorValid LoadWf Examples.
 Open Scope string_scope.
 Open Scope list_scope.
 
@@ -40,6 +40,17 @@ Proof.
   destruct (exec_sound N o ss inp with_dt f H1 H2 H3) as (out & A & B & _). exists out. auto.
 Qed.
 Print Assumptions C08_validated_code_never_reads_an_undefined_value.
+
+(* consequently every accepted model has pairwise distinct names across all kinds, exactly one
+   derivative d<state>_dt per state, no missing variable - it satisfies the well-formedness the
+   generator theorems (C01, C05, C12) need, as soon as its names avoid the generator's own *)
+Theorem C08_accepted_models_satisfy_the_generators_preconditions :
+  forall items o ss wd,
+    load items = Ok o -> sorted_states o = Some ss ->
+    (forall x, In x (all_names o) -> resv wd x = false) ->
+    wf_gen o ss wd = true.
+Proof. exact load_wf. Qed.
+Print Assumptions C08_accepted_models_satisfy_the_generators_preconditions.
 
 (* cyclic definitions get no statement order at all (graphlib.CycleError in the implementation):
    if sorted_assignments returns an order, no assignment reads itself, no two assignments read
